@@ -4,7 +4,7 @@
    a sample of every run (the in-kernel sample), so the extraction itself is checked. *)
 From Coq Require Import List Ascii String Bool Arith NArith ZArith.
 Require Import Show.
-Require V1 V5 V6 V3 V11 A1 D3 M6 M6b GS R2 AR AR2 AR3 CL TS3 CX SchemaDefs Schema_gen H12 H13 S11.
+Require V1 V5 V6 V3 V11 A1 D3 M6 M6b GS R2 AR AR2 AR3 CL TS3 CX SchemaDefs Schema_gen H12 H13 S11 D16 DEB.
 Import ListNotations.
 Open Scope string_scope.
 Open Scope list_scope.
@@ -410,6 +410,83 @@ Definition run_clearsign (op : string) (a : list str) : option str :=
           end)
   else None.
 
+(* ---- .deb loading and debsig: C14 C16 (tar, decompressors, path.Clean, filepath.Ext and the signature check
+   come in as oracle answers computed by the harness with the libraries directly) ---- *)
+Record omember := { om_name : str; om_istar : bool; om_ext : str; om_decok : bool; om_untarok : bool;
+                    om_files : list (str * str * str) }.       (* cleaned name, content, printed form *)
+Fixpoint take_files (n : nat) (a : list str) : list (str * str * str) * list str :=
+  match n, a with
+  | S n', x :: y :: z :: r => let '(fs, rest) := take_files n' r in ((x, y, z) :: fs, rest)
+  | _, _ => ([], a)
+  end.
+Fixpoint parse_oracle (fuel : nat) (a : list str) : list omember :=
+  match fuel, a with
+  | S f, nm :: it :: ex :: dk :: uk :: k :: r =>
+      let '(fs, rest) := take_files (arg_nat k) r in
+      {| om_name := nm; om_istar := arg_bool it; om_ext := ex; om_decok := arg_bool dk; om_untarok := arg_bool uk; om_files := fs |}
+      :: parse_oracle f rest
+  | _, _ => []
+  end.
+Definition find_om (tbl : list omember) (name : str) : option omember := find (fun o => D3.seq (om_name o) name) tbl.
+(* the oracles as lookups: a member's (decompressed) tar stream is represented by the member's name *)
+Definition deb_record (tbl : list omember) (buf : str) (pick : list D16.member -> option D16.member) : option (D16.deb (list CX.cval)) :=
+  match ar_open_z buf with
+  | Some (es, true) =>
+      let ms := DEB.members_of buf es in
+      let name_of_data := fun d : str =>
+        match find (fun m => D3.seq (snd m) d && match find_om tbl (fst m) with Some _ => true | None => false end) ms with
+        | Some m => fst m | None => [] end in
+      D16.load_deb (list CX.cval)
+        (fun token => match find_om tbl token with
+                      | Some o => if om_untarok o then Some (map (fun f => (fst (fst f), snd (fst f))) (om_files o)) else None
+                      | None => None end)
+        (fun ext d => match find_om tbl (name_of_data d) with Some o => if om_decok o then Some (om_name o) else None | None => None end)
+        (fun x => x)
+        (fun text => match schema_named (lit "deb_control") with Some (sch, _) => CX.decode_text sch text | None => None end)
+        (fun n => match find_om tbl n with Some o => om_ext o | None => [] end)
+        (fun n => match find_om tbl n with Some o => om_istar o | None => false end)
+        pick ms
+  | _ => None
+  end.
+Definition first_pick (l : list D16.member) : option D16.member := hd_error l.
+Definition show_files (tbl : list omember) : str :=
+  (* the data tar listing, in the printed form the oracle supplied (the data member is unique when loading succeeds) *)
+  match find (fun o => D16.has_prefix_s (lit "data.") (om_name o)) tbl with
+  | Some o => show_list (fun f => lit "( " ++ hx (fst (fst f)) ++ sp1 ++ snd f ++ lit " )") (om_files o)
+  | None => lit "[]"
+  end.
+Definition run_debpkg (op : string) (a : list str) : option str :=
+  let g n := nth_arg n a in
+  if op =? "debmembers" then
+    Some (match ar_open_z (g 0) with
+          | None => lit "notar"
+          | Some (es, clean) => show_list (fun e => lit "( " ++ hx (AR.e_name e) ++ sp1 ++ hx (AR.data_of (g 0) e) ++ lit " )") es
+                                 ++ (if clean then lit " eof" else lit " err")
+          end)
+  else if op =? "debload" then
+    let tbl := parse_oracle (List.length a) (tl a) in
+    Some (match deb_record tbl (g 0) first_pick with
+          | None => lit "err"
+          | Some d =>
+              lit "ok " ++ show_record (D16.d_control _ d) ++ lit " | " ++ hx (D16.d_control_ext _ d) ++ sp1 ++ hx (D16.d_data_ext _ d) ++ sp1 ++
+              show_list (fun kv => lit "( " ++ hx (fst kv) ++ sp1 ++ snd kv ++ lit " )")
+                        (sort_args (map (fun m => (fst m, show_nat (List.length (snd m)))) (D16.d_members _ d))) ++ sp1 ++
+              show_files tbl
+          end)
+  else if op =? "debsig" then
+    (* buf, role, verified (1/0), signer, then the oracle table *)
+    let tbl := parse_oracle (List.length a) (skipn 4 a) in
+    Some (match deb_record tbl (g 0) first_pick with
+          | None => lit "loaderr"
+          | Some d =>
+              match D16.check_debsig unit str (list CX.cval)
+                      (fun _ _ _ => if arg_bool (g 2) then Some (g 3) else None) first_pick tt (g 1) d with
+              | Some e => lit "ok " ++ hx e
+              | None => lit "err"
+              end
+          end)
+  else None.
+
 Definition run (op : string) (hexargs : list str) : str :=
   let a := map unhex hexargs in
   match run_version op a with Some r => r | None =>
@@ -421,4 +498,5 @@ Definition run (op : string) (hexargs : list str) : str :=
   match run_codec op a with Some r => r | None =>
   match run_hash op a with Some r => r | None =>
   match run_clearsign op a with Some r => r | None =>
-  lit "unknown-op" end end end end end end end end end.
+  match run_debpkg op a with Some r => r | None =>
+  lit "unknown-op" end end end end end end end end end end.
